@@ -309,7 +309,7 @@ theorem compile_correct_loopfree_partial (env : Env) (henv : EnvOk env) (cond : 
       exact absurd (by simp [c, ctxOfEnv]) hk
     · intro n hn
       simp at hn
-  obtain ⟨mem', its', ⟨n, hn⟩, _⟩ := hrun 0 [] _ [] (CodeAt.whole _) hinv rfl
+  obtain ⟨mem', ext, ⟨n, hn⟩, _⟩ := hrun 0 [] _ [] (CodeAt.whole _) hinv rfl
   refine ⟨n + 1, ?_⟩
   have hr := run_of_runN env (compileRule c cond) n {} _ hn (by simp [compileRule])
   simp only [modelVerdict]
